@@ -129,7 +129,8 @@ int find_page_node(struct memory_page_node * array, uint64_t key, int imin, int 
 			// key found at index imid
 			return imid;
 		// determine which subarray to search
-		else if (array[imid].ad < key)
+		// (an empty page starting at key sorts before the page holding key)
+		else if (array[imid].ad <= key)
 			// change min index to search upper subarray
 			imin = imid + 1;
 		else
@@ -865,6 +866,9 @@ void add_memory_page(vm_mngr_t* vm_mngr, struct memory_page_node* mpn_a)
 	for (i=0; i < vm_mngr->memory_pages_number; i++) {
 		mpn = &vm_mngr->memory_pages_array[i];
 		if (mpn->ad < mpn_a->ad)
+			continue;
+		/* Keep empty pages before the non empty page of same address */
+		if (mpn->ad == mpn_a->ad && mpn->size == 0 && mpn_a->size != 0)
 			continue;
 		break;
 	}
